@@ -165,8 +165,8 @@ orc_executor_get_accumulator_str (OrcExecutor *ex, const char *name)
 {
   int var;
   var = orc_program_find_var_by_name (ex->program, name);
-  if (var >= 0)
-    return ex->accumulators[var];
+  if (var >= ORC_VAR_A1 && var < ORC_VAR_A1 + ORC_MAX_ACCUM_VARS)
+    return ex->accumulators[var - ORC_VAR_A1];
   return -1;
 }
 
